@@ -57,6 +57,9 @@ def tuple_(rng, hostile=0.0):
 		p['nonce'] = b'n0nce'
 	p['nc'] = rng.choice((b'00000001', b'0000000a', p['nc']))
 	p['method'] = rng.choice((b'GET', b'POST', b'HEAD', p['method']))
+	if rng.random() < 0.3:
+		# request-targets as clients send them: escapes in either letter case, empty queries, percent signs - an octet string, not normalised
+		p['uri'] = rng.choice((b'/%7Emufasa/x', b'/search?q=', b'/index.html?', b'/a%2fb', b'/dir/my%20file.html', b'/s?q=100%25&lang=de', b'/literal%%percent', b'/A/../b', b'//x//y', b'*', b'http://H.example:80/p', b'/a?b#c'))
 	qop = rng.choice((None, b'auth', b'auth-int', None, b'auth', b'auth-int', b'', b'auth-conf', b'AUTH'))
 	if qop is not None:
 		p['qop'] = qop
@@ -351,6 +354,18 @@ def oracle(case):
 		except Exception as e:
 			fid = 'F20c' if not all(wire_safe(v) for k, v in p.items() if k in ('username', 'realm', 'nonce', 'uri', 'cnonce', 'nc', 'opaque', 'qop', 'algorithm')) or b'=?' in w else None
 			return {'what': 'compose/parse of the field raised %s: %s' % (exc_name(e), e), 'params': describe(case)[1], 'finding': fid}
+		# the same parameters handed over as text: the same field (nothing is normalised on the way; the digest-uri is an octet string)
+		try:
+			pt = {k: v.decode('ascii') for k, v in p.items() if isinstance(v, bytes)}
+		except UnicodeDecodeError:
+			pt = None
+		if pt is not None and len(pt) == len(p):
+			try:
+				wt = bytes(Authorization('Digest', pt))
+			except Exception as e:
+				return {'what': 'the parameters handed over as text: composing raised %s: %s' % (exc_name(e), e), 'params': describe(case)[1], 'finding': None}
+			if wt != w:
+				return {'what': 'the parameters handed over as text compose %r, as octets %r' % (wt[:200], w[:200]), 'params': describe(case)[1], 'finding': None}
 		# a second element built from the parameters of the first (a server putting its own data next to them) is a value of its own:
 		# changing it does not change the first, which still composes the same field and still verifies
 		try:
